@@ -8,8 +8,10 @@ M=$1; ID=$2; shift 2
 export GOFLAGS=-mod=mod GOPROXY=off GOSUMDB=off GOTOOLCHAIN=local CGO_ENABLED=0
 S=/tmp/vx-seed-$ID
 OUT=/verif/seeded/$ID
-rm -rf "$S"; mkdir -p "$OUT"
-rsync -a --exclude .git /repo/ "$S"/
+rm -rf "$S"; mkdir -p "$OUT" "$S"
+# committed HEAD of /repo (not the working tree: builders may have uncommitted edits there)
+git -C /repo archive HEAD | tar -x -C "$S"
+git -C /repo rev-parse HEAD > "$OUT"/repo_head.txt
 cp "$M"/patch.diff "$OUT"/patch.diff
 for f in "$M"/demo_test.go "$M"/demo "$M"/*.go; do [ -e "$f" ] && cp -r "$f" "$OUT"/ 2>/dev/null; done
 [ -f "$M"/meta.json ] && cp "$M"/meta.json "$OUT"/meta.agent.json
